@@ -164,39 +164,48 @@ Definition add_pi (r : lin) (q : Q) : lin :=
 (* ts_index = None: the C++ variable is left uninitialised on that path *)
 Record tsout := mkTs { ts_rarg : lin; ts_index : option Z; ts_sign : Z; ts_conj : bool }.
 
+(* the exits taken when 12*n is an integer: table index (remainder zero) or pure periodicity *)
+Definition ts_early (period : Z) (odd : bool) (n : Q) (r : lin) : option tsout :=
+  let t := Qred (n * (12 # 1)) in
+  if q_is_int t then
+    let m := Qnum t mod (12 * period) in
+    if lin_is_zero r then Some (mkTs lin_zero (Some m) 1 false)
+    else if m =? 0 then
+      let '(b, ra) := handle_minus r in
+      Some (mkTs ra (Some 0) (if odd && b then -1 else 1) false)
+    else None
+  else None.
+
+(* m with arg = r + pi*m/2 (modulo the period); for an Integer n the code takes |n|/period
+   WITHOUT reducing it modulo 1 *)
+Definition ts_m (period : Z) (n : Q) : Q :=
+  let m0 := if q_is_int n
+            then Qred ((Z.abs (Qnum (Qred n)) # 1) / inject_Z period)
+            else q_frac (n / inject_Z period) in
+  Qred (m0 * inject_Z (2 * period)).
+
+(* the quadrant tests *)
+Definition ts_main (odd conj_odd : bool) (m : Q) (r : lin) : tsout :=
+  if qle (2 # 1) m && qlt m (3 # 1) then
+    let '(b, ra) := handle_minus (add_pi r ((m - (2 # 1)) / (2 # 1))) in
+    mkTs ra None (if odd && b then 1 else -1) false
+  else if qle (1 # 1) m then
+    let '(sg, q) := if qlt m (2 # 1) then (1, ((m - (1 # 1)) / (2 # 1))%Q)
+                    else (-1, ((m - (3 # 1)) / (2 # 1))%Q) in
+    let '(b, ra) := handle_minus (add_pi r q) in
+    mkTs ra None (if negb b && conj_odd then - sg else sg) true
+  else
+    mkTs (add_pi r (m / (2 # 1))) (Some (-1)) 1 false.
+
 Definition trig_simplify (period : Z) (odd conj_odd : bool) (arg : lin) : tsout :=
   match get_pi_shift arg with
   | None =>
       let '(b, ra) := handle_minus arg in
       mkTs ra (Some (-1)) (if odd && b then -1 else 1) false
   | Some (n, r) =>
-      let t := Qred (n * (12 # 1)) in
-      let early :=
-        if q_is_int t then
-          let m := Qnum t mod (12 * period) in
-          if lin_is_zero r then Some (mkTs lin_zero (Some m) 1 false)
-          else if m =? 0 then
-            let '(b, ra) := handle_minus r in
-            Some (mkTs ra (Some 0) (if odd && b then -1 else 1) false)
-          else None
-        else None in
-      match early with
+      match ts_early period odd n r with
       | Some o => o
-      | None =>
-          let m0 := if q_is_int n
-                    then Qred ((Z.abs (Qnum (Qred n)) # 1) / inject_Z period)
-                    else q_frac (n / inject_Z period) in
-          let m := Qred (m0 * inject_Z (2 * period)) in
-          if qle (2 # 1) m && qlt m (3 # 1) then
-            let '(b, ra) := handle_minus (add_pi r ((m - (2 # 1)) / (2 # 1))) in
-            mkTs ra None (if odd && b then 1 else -1) false
-          else if qle (1 # 1) m then
-            let '(sg, q) := if qlt m (2 # 1) then (1, ((m - (1 # 1)) / (2 # 1))%Q)
-                            else (-1, ((m - (3 # 1)) / (2 # 1))%Q) in
-            let '(b, ra) := handle_minus (add_pi r q) in
-            mkTs ra None (if negb b && conj_odd then - sg else sg) true
-          else
-            mkTs (add_pi r (m / (2 # 1))) (Some (-1)) 1 false
+      | None => ts_main odd conj_odd (ts_m period n) r
       end
   end.
 
@@ -356,19 +365,32 @@ Definition sign_num (a : number) : option signres :=
 
 (* abs: |Integer|, |Rational|, sqrt(re^2 + im^2) for a Complex *)
 Inductive absres := AbsNum (n : number) | AbsSqrt (q : Q).
+(* pow(Rational, 1/2) of a perfect square is the exact root *)
+Definition q_sqrt_exact (q : Q) : option Q :=
+  let q' := Qred q in
+  let n := Qnum q' in
+  let d := Zpos (Qden q') in
+  let rn := Z.sqrt n in
+  let rd := Z.sqrt d in
+  if (0 <=? n) && (rn * rn =? n) && (rd * rd =? d) then Some (Qred (rn # Z.to_pos rd)) else None.
 Definition abs_num (a : number) : option absres :=
   match a with
   | NInt z => Some (AbsNum (NInt (Z.abs z)))
   | NRat n d => Some (AbsNum (NRat (Z.abs n) d))
   | NCplx rn rd imn imd =>
-      Some (AbsSqrt (Qred ((rn # rd) * (rn # rd) + (imn # imd) * (imn # imd))))
+      let q := Qred ((rn # rd) * (rn # rd) + (imn # imd) * (imn # imd)) in
+      match q_sqrt_exact q with
+      | Some r => Some (AbsNum (num_of_q r))
+      | None => Some (AbsSqrt q)
+      end
   | _ => None
   end.
 
 (* max / min over the Number arguments (exact rationals and the two real infinities): the
    first number starts the fold; a later +oo ends max at once, a later -oo is skipped; otherwise
    the sign of the difference decides. *)
-Inductive xnum := XQ (q : Q) | XInf | XNegInf.
+Inductive xnum := XQ (q : Q) | XInf | XNegInf | XCplx.
+Inductive foldres := FoldOk (x : xnum) | FoldThrow | FoldEmpty.
 Definition xnum_sub_pos (p cur : xnum) : bool :=     (* (p - cur).is_positive() *)
   match p, cur with
   | XQ a, XQ b => qlt b a
@@ -376,24 +398,27 @@ Definition xnum_sub_pos (p cur : xnum) : bool :=     (* (p - cur).is_positive() 
   | XQ _, XNegInf => true
   | _, _ => false
   end.
-Fixpoint max_loop (cur : xnum) (l : list xnum) : xnum :=
+(* every argument is first tested for Complex (exception); the first Number only initialises *)
+Fixpoint max_loop (cur : xnum) (l : list xnum) : foldres :=
   match l with
-  | [] => cur
-  | XInf :: _ => XInf
+  | [] => FoldOk cur
+  | XCplx :: _ => FoldThrow
+  | XInf :: _ => FoldOk XInf
   | XNegInf :: r => max_loop cur r
   | p :: r => max_loop (if xnum_sub_pos p cur then p else cur) r
   end.
-Definition max_fold (l : list xnum) : option xnum :=
-  match l with [] => None | x :: r => Some (max_loop x r) end.
-Fixpoint min_loop (cur : xnum) (l : list xnum) : xnum :=
+Definition max_fold (l : list xnum) : foldres :=
+  match l with [] => FoldEmpty | XCplx :: _ => FoldThrow | x :: r => max_loop x r end.
+Fixpoint min_loop (cur : xnum) (l : list xnum) : foldres :=
   match l with
-  | [] => cur
+  | [] => FoldOk cur
+  | XCplx :: _ => FoldThrow
   | XInf :: r => min_loop cur r
-  | XNegInf :: _ => XNegInf
+  | XNegInf :: _ => FoldOk XNegInf
   | p :: r => min_loop (if xnum_sub_pos cur p then p else cur) r
   end.
-Definition min_fold (l : list xnum) : option xnum :=
-  match l with [] => None | x :: r => Some (min_loop x r) end.
+Definition min_fold (l : list xnum) : foldres :=
+  match l with [] => FoldEmpty | XCplx :: _ => FoldThrow | x :: r => min_loop x r end.
 
 (* kronecker_delta on exact rationals: expand(i - j) is the Number i - j *)
 Definition kronecker_q (i j : Q) : Z := if Qeq_bool i j then 1 else 0.
@@ -446,3 +471,19 @@ Definition primepi_int (n : Z) : Z :=
 (* primorial(Integer n), n > 0: product of the primes up to n; an exception otherwise *)
 Definition primorial_int (n : Z) : option Z :=
   if 0 <? n then Some (fold_left Z.mul (primes_upto n) 1) else None.
+
+(* ------------------------------------------------------------------ printer support *)
+Fixpoint tc_rfind (c : N) (t : list (list N * N)) : option (list N) :=
+  match t with
+  | [] => None
+  | (nm, c') :: r => if (c =? c')%N then Some nm else tc_rfind c r
+  end.
+Definition tc_name_of (c : N) : option (list N) := tc_rfind c tc_table.
+Definition trig_code (f : trigfn) : N :=
+  match f with
+  | FSin => TC_Sin | FCos => TC_Cos | FTan => TC_Tan | FCot => TC_Cot | FSec => TC_Sec | FCsc => TC_Csc
+  end.
+Definition trig_of_code (c : N) : option trigfn :=
+  if (c =? TC_Sin)%N then Some FSin else if (c =? TC_Cos)%N then Some FCos
+  else if (c =? TC_Tan)%N then Some FTan else if (c =? TC_Cot)%N then Some FCot
+  else if (c =? TC_Sec)%N then Some FSec else if (c =? TC_Csc)%N then Some FCsc else None.
